@@ -7,6 +7,7 @@ CONSTANT Thrs <- ThrQuick
 CONSTANT MaxIters = {0, 1, 2}
 CONSTANT MaxDrops = 1
 CONSTANT WithFail = TRUE
+CONSTANT NBk = 2
 CONSTANT MinGood = 2
 INIT Init
 NEXT Next
@@ -20,3 +21,6 @@ INVARIANT C10_FixpointOrBudget
 INVARIANT C10_WithinBudget
 INVARIANT C10_RejectedStayOut
 INVARIANT C10_OutliersRejectedAndRefitted
+INVARIANT C10_BreakpointsOnlyShrink
+INVARIANT C10_ResidualsOnBreakpointsInEffect
+INVARIANT C10_ReturnedCurveOnReturnedBreakpoints
